@@ -310,6 +310,7 @@ func cmdCheck(args []string) int {
 		if oracleDir != "" {
 			os.RemoveAll(oracleDir)
 		}
+		os.RemoveAll(interp.VRoot)
 	}()
 
 	totalPaths, totalDecs, totalUndec, totalUnexpl, validated, mismatches := 0, int64(0), 0, 0, 0, 0
@@ -589,7 +590,7 @@ func runNative(scratch, pkgDir string, cases []nativeCase, extraEnv []string) ([
 	of := filepath.Join(work, "out.json")
 	cmd := exec.Command("go", "test", "-vet=off", "-count=1", "-timeout", "300s", "-overlay", ovf, "-run", "^TestVerifReplay$", "./"+pkgDir)
 	cmd.Dir = repo
-	cmd.Env = append(os.Environ(), "GOFLAGS=-mod=mod", "GOPROXY=off", "GOSUMDB=off", "GOTOOLCHAIN=local", "VRT_CASES="+cf, "VRT_OUT="+of, "VRT_WORK="+work)
+	cmd.Env = append(os.Environ(), "GOFLAGS=-mod=mod", "GOPROXY=off", "GOSUMDB=off", "GOTOOLCHAIN=local", "VRT_CASES="+cf, "VRT_OUT="+of, "VRT_WORK="+work, "VRT_ROOT="+interp.VRoot)
 	cmd.Env = append(cmd.Env, extraEnv...)
 	out, runErr := cmd.CombinedOutput()
 	b, err := os.ReadFile(of)
